@@ -675,7 +675,7 @@ func (e *Eng) oblige(kind, key string, props []string, pos token.Pos, guard, phi
 	}
 	// obligations at the end of a path (lock invariants at Unlock, postconditions, loop steps) are not
 	// assumed afterwards: nothing on that path follows, and their quantifiers would only burden later queries
-	assumeAfter := !(kind == "lockinv" || kind == "post" || kind == "loop-step" || kind == "lemma")
+	assumeAfter := !(kind == "lockinv" || kind == "post" || kind == "loop-step" || kind == "lemma" || kind == "site" || kind == "held")
 	e.sc.obligation(o.ID, guard, phi, check, wm, assumeAfter)
 }
 
@@ -748,6 +748,7 @@ type Frame struct {
 	entryGuard string
 	nonnil map[string][]*ssa.BasicBlock
 	inheritedNonNil map[string]bool
+	locals map[string]ssa.Value
 	autoBounds map[*ssa.BasicBlock]func(*State, map[*ssa.Phi]*Val, *ssa.BasicBlock, string)
 }
 
